@@ -168,6 +168,10 @@ def _work(spec):
         try:
             X = F.build(spec)
             n, v = check(X) if spec["cls"] != "D" else check_directed(X)
+            F.detour(X)
+            n2, v2 = check(X) if spec["cls"] != "D" else check_directed(X)
+            n += n2
+            v = list(v) + [(m, "[same object re-evaluated after remove+re-add of its first node and edge] " + msg) for m, msg in v2]
         except RecursionError:
             raise
         except Exception as e:  # noqa: BLE001
